@@ -10,6 +10,7 @@ import (
 	"strconv"
 	"strings"
 	"sync"
+	"sync/atomic"
 	"testing"
 	"time"
 
@@ -178,7 +179,7 @@ func (r *Rec) write(rule string) {
 	if path == "" {
 		return
 	}
-	s := shardStats{ID: r.ID, Shard: shard(), Evaluations: r.Evaluations, Classes: r.Classes, Samples: r.Samples, Known: r.Known, EngineCalls: engineCalls, Rule: rule}
+	s := shardStats{ID: r.ID, Shard: shard(), Evaluations: r.Evaluations, Classes: r.Classes, Samples: r.Samples, Known: r.Known, EngineCalls: atomic.LoadInt64(&engineCalls), Rule: rule}
 	for h := range r.hashes {
 		s.Hashes = append(s.Hashes, strconv.FormatUint(h, 16))
 	}
